@@ -1,11 +1,17 @@
 # C20 — snapshot labels written at pull time reproduce the layer's source at mount time
 PROPS["C20"] = dict(
     props_file="Properties/C20.v",
-    harnesses=[dict(cmd="labels", mod="root", model="Model.Labels", quick=240, thorough=6000, shard=30,
+    harnesses=[dict(cmd="labels", mod="root", model="Model.Labels", quick=176, thorough=6000, shard=22,
                     preamble="Open Scope string_scope.",
                     require=["flavour.default", "flavour.extra", "probe.plain", "probe.mutated", "input.layers-over-limit",
                              "input.urls-over-limit", "input.urls-at-limit", "input.layers-at-limit", "input.several-layers-with-urls", "input.bad-digest", "input.bad-ref",
-                             "input.not-manifest", "input.nonlayer-in-layers"])],
+                             "input.not-manifest", "input.nonlayer-in-layers"]),
+               # command level: the real `ctr-remote rpull` wiring (commands.pull) through containerd's client.Pull, unpacker and
+               # metadata snapshotter layer against an in-memory registry; observation = labels that reach the snapshotter
+               dict(cmd="rpull", mod="cmdmod", model="Model.Labels", quick=40, thorough=1500, shard=10,
+                    preamble="Open Scope string_scope.",
+                    require=["flavour.default", "flavour.extra", "probe.plain", "probe.mutated", "input.urls-at-limit",
+                             "input.several-layers-with-urls"])],
     rule="manifests as containerd enumerates children (config, then 0..60 layers of mixed layer media types, repeated digests, "
          "sha256/384/512 digests, URL lists nil/empty/[\"\"]/foreign/with commas/long enough to hit the 4096-byte label limit, "
          "rarely a non-layer blob among the layers; malformed stream: unparsable digests and references), both handler flavours "
@@ -13,7 +19,8 @@ PROPS["C20"] = dict(
          "is read back by FromDefaultLabels and by the service reader chain, plus 1-4 mutated maps per case (labels removed / corrupted); "
          "non-trivial = >= 2 layers and a reader result with neighbours; distinct = distinct case term",
     assumptions=[
-        "descriptor annotations are empty before the handlers run (manifest descriptors carrying containerd.io/snapshot/* annotations of their own are out of scope)",
+        "annotations the manifest itself carries on layer descriptors are modelled (arbitrary label maps present before the handlers run); "
+        "the generator injects containerd.io/snapshot/* annotations only (what containerd hands down to a snapshotter)",
         "containerd's reference.Parse is an uninterpreted function argument of the model (theorems hold for every such function); "
         "the harness feeds the model the real parser's answers",
         "containerd labels.Validate, snapshotters.AppendInfoHandlerWrapper, go-digest Parse, strings.Split/TrimSuffix, fmt %d, strconv.ParseInt "
@@ -22,13 +29,20 @@ PROPS["C20"] = dict(
     ],
     level_text="Coq theorems over all manifests/label maps on the label-protocol model: every written label validates; reader(writer) "
                "reproduces reference, digest, URLs (up to the size-limited prefix) and a manifest-order prefix of the following layers, each with the URLs "
-               "stored under its own index; prefetch size round-trips for every int64; missing/malformed mandatory labels are rejected. The model is run "
-               "against fs/source, service and fs on generated manifests every run.",
+               "stored under its own index; prefetch size round-trips for every int64; missing/malformed mandatory labels are rejected. The extra handler never fails on well-formed digests and "
+               "containerd's layer prefix is maximal; manifest-supplied annotations: default reader and prefetch immune, extra flavour reference/digest immune. "
+               "The model is run against fs/source, service and fs on generated manifests, and against the real `ctr-remote rpull` wiring "
+               "(commands.pull -> containerd client.Pull -> unpacker -> metadata snapshotter -> labels at the backend snapshotter) every run.",
     level_note="Model (coq/Model/Labels.v) is hand-written; label keys are an inductive type whose lengths are regenerated from the Go constants; "
                "reference.Parse is abstract; the URL-list round trip is refuted for empty lists and URLs containing commas (known findings), "
-               "and for non-layer blobs inside the layer list (known finding).",
+               "for non-layer blobs inside the layer list, and for manifest-supplied cri.* (default flavour, service chain) and "
+               "urls/prefetch (extra flavour) annotations (known findings F17a-e).",
     technique="Coq proof by structural induction over the children list / label value; correspondence by vm_compute on observed cases",
     trusted=["fs/source, service/cri.go, fs.neighboringLayers are modelled by hand in coq/Model/Labels.v; tie = annotation maps per child, "
              "reader results (reference, digest, URLs, neighbours), Mount's neighbour list and prefetch size, compared on every generated case",
-             "hooks service/verif_export_c20.go (VerifSources, VerifSourceFromCRILabels) and fs/verif_export_c20.go (VerifNeighboringLayers) are thin wrappers"],
+             "hooks service/verif_export_c20.go (VerifSources, VerifSourceFromCRILabels), fs/verif_export_c20.go (VerifNeighboringLayers) and "
+             "cmd/ctr-remote/commands/verif_export_c20.go (VerifPull = pull() with the rPullConfig the flags would build) are thin wrappers",
+             "cmd/rpull: containerd's client.Pull, unpacker, metadata snapshotter/content/image/lease stores are the real ones (in-process, bolt + content store "
+             "in a temp dir); the registry (remotes.Resolver), the backend snapshotter (records labels, commits the target, answers AlreadyExists like a remote "
+             "snapshotter), diff and introspection services are harness fakes"],
 )
